@@ -41,7 +41,14 @@ def run_graphs(ctx, lib, graphs, obs, classes, invariants, maxlen=60, jobs=8):
     accepted = executions = events = 0
     samples = []
     okc = {}
-    for name, c in graphs:
+    import os
+    only = [x for x in os.environ.get("VERIF_ONLY", "").split(",") if x]        # development runs
+    allclasses = classes
+    for gr in graphs:
+        name, c = gr[0], gr[1]
+        classes = gr[2] if len(gr) > 2 else allclasses          # (a graph may name its own object classes)
+        if only and name not in only:
+            continue
         res, g = pipeline.model_check(ctx, "MC_Core", name, c, invariants=invariants, properties=PROPS, dump=True)
         tot_states += res.distinct
         tot_trans += res.generated
@@ -157,6 +164,10 @@ def c11(ctx):
             ("c11-stale", consts(Acts='{"sess", "obj", "find", "stale"}', MaxH="3", MaxO="2", LoginPins='{"P1", "P2"}')),
             ("c11-one", consts(Tokens='{"t1"}', Acts='{"sess", "obj", "find"}', MaxH="4", MaxO="2",
                                LoginPins='{"P1", "P2"}')),
+            # copies that change kind (token / session, public -> private) and what logout / close do to their handles
+            # (the identity tag of a data object cannot be carried over by C_CopyObject: secret keys only)
+            ("c11-copy", consts(Tokens='{"t1"}', Acts='{"sess", "obj", "copy"}', MaxH="3", MaxO="2", LoginPins='{"P2"}'),
+             ["secret"]),
         ]
         classes = ["secret", "data"]
     else:
